@@ -60,7 +60,7 @@ def cases(tier, seed):
                             "kind": "scale", "st": st, "s": s, "det": dk,
                             "ms_xsec": (st, s) in MS_XSEC[tier] and
                             dk == DETK[0]})
-        if st in ("mie", "mie2", "ms2", "tm-spheroid", "layered"):
+        if st in ("mie", "mie2", "ms2", "tm-spheroid", "layered", "auto-ms2"):
             # all lengths written as whole numbers (e.g. nanometres) in
             # Python ints / integer arrays instead of floats
             out.append({"id": "intunits:%s" % st, "kind": "intunits",
